@@ -299,7 +299,7 @@ def candidates(chunks):
 def shrink(ctx, case, bad_many, rounds=40):
     """greedy minimisation (batched): while some smaller variant still fails, move to the smallest such"""
     f = case.split("\t")
-    if f[1] == "run":
+    if f[1] == "run" and case_chunks(case) is not None:
         cur = case_chunks(case)
         build = lambda chs: run_case(f[2], chs, f[3], f[4])
     elif f[1] == "dec":
@@ -336,8 +336,11 @@ def describe(case):
     d["decoder_cfg"] = dict(zip(names, [int(x) for x in spec.split(",")]))
     if f[1] == "run":
         ch = case_chunks(case)
-        d["chunks"] = [repr(c)[1:] for c in ch]
-        d["whole"] = repr(b"".join(ch))[1:]
+        if ch is None:
+            d["ops"] = ["htp_urlenp_finalize" if h == "F" else repr(bytes.fromhex(h) if h != "-" else b"")[1:] for h in f[5].split(",")]
+        else:
+            d["chunks"] = [repr(c)[1:] for c in ch]
+            d["whole"] = repr(b"".join(ch))[1:]
         d["argument_separator"], d["decode_url_encoding"] = f[3], f[4]
     elif f[1] == "dec":
         d["decoder_ctx"] = int(f[2])
